@@ -63,6 +63,7 @@ func runC03(c *Ctx, r *Report) {
 	borrow(c, r, c07PairedUpdates, "C07-a", "C03-e", nil, true)
 	borrow(c, r, c07ParseErrors, "C07-c", "C03-e", nil, true)
 	borrow(c, r, c07Numerical, "C07-d", "C03-e", nil, true)
+	c07DerivedState(c, r, "C03-e")
 }
 
 // c05AggregationLoopAs runs the C05-b rules and files them under another prefix.
